@@ -6,6 +6,7 @@ import (
 	"os"
 	"regexp"
 	"runtime"
+	"slices"
 	"sort"
 	"strconv"
 	"strings"
@@ -64,10 +65,11 @@ func walkPath(t *testing.T, g *Graph, seed int64, path []Edge) (int, []Mismatch,
 
 // knownFinding is one entry of /verif/known_findings.json with status "known".
 type knownFinding struct {
-	ID        string `json:"id"`
-	Property  string `json:"property"`
-	Status    string `json:"status"`
-	Resync    bool   `json:"resync"` // the harness system re-aligns itself with the spec state, the path can go on
+	ID        string   `json:"id"`
+	Property  string   `json:"property"`
+	Also      []string `json:"also"`
+	Status    string   `json:"status"`
+	Resync    bool     `json:"resync"` // the harness system re-aligns itself with the spec state, the path can go on
 	Signature struct {
 		AllOf []string `json:"all_of"`
 	} `json:"signature"`
@@ -86,7 +88,7 @@ func loadKnown(prop string) []knownFinding {
 	}
 	var out []knownFinding
 	for _, k := range f.Findings {
-		if k.Status == "known" && k.Property == prop && k.Resync {
+		if k.Status == "known" && (k.Property == prop || slices.Contains(k.Also, prop)) && k.Resync {
 			out = append(out, k)
 		}
 	}
@@ -210,6 +212,13 @@ func walkPathK(t *testing.T, g *Graph, seed int64, path []Edge, known []knownFin
 					continue
 				}
 				step, mm, exp, got = i, ms, e.O, obs
+				if st, ok := sys.(interface{ Stuck(func()) string }); ok && onFatal != nil {
+					if why := st.Stuck(synctest.Wait); why != "" {
+						// goroutines that can never finish: the bubble cannot be left in an orderly way
+						ms = append(ms, Mismatch{"txn.hang", why})
+						onFatal(path[:i+1], ms)
+					}
+				}
 				for _, m := range ms {
 					if m.Kind == "locks" && onFatal != nil {
 						// a lock is still held: tearing the system down would block for ever on it, and
@@ -314,7 +323,7 @@ func TestWalk(t *testing.T) {
 	onFatal = func(es []Edge, mm []Mismatch) {
 		record(es, mm, nil, nil)
 		writeOut()
-		fmt.Printf("FATAL divergence (a lock is held at a quiescent point): %v\n", mm)
+		fmt.Printf("FATAL divergence (a lock is held at a quiescent point, or goroutines that can never finish): %v\n", mm)
 		os.Exit(4) // (the testing package forbids exit status 0 from inside a test)
 	}
 	wdFlush = func(stacks string) {
